@@ -6,6 +6,24 @@ import bisect
 import io
 
 
+class _Lazy:
+    def __init__(self, n, fn):
+        self.n, self.fn = n, fn
+
+    def __len__(self):
+        return self.n
+
+    def __getitem__(self, sl):
+        start, stop, _ = sl.indices(self.n)
+        return self.fn(start, max(0, stop - start))
+
+    def __lt__(self, other):
+        return False
+
+    def __gt__(self, other):
+        return False
+
+
 class SparseFile(io.RawIOBase):
     def __init__(self, size=0, name=None):
         self._size = size
@@ -25,8 +43,18 @@ class SparseFile(io.RawIOBase):
         for o, d in self._ext:
             if o < offset + len(data) and offset < o + len(d):
                 raise ValueError(f"overlapping extents at {offset} (+{len(data)}) and {o} (+{len(d)})")
-        bisect.insort(self._ext, (offset, data))
+        bisect.insort(self._ext, (offset, data), key=lambda e: e[0])
         self._size = max(self._size, offset + len(data))
+
+    def put_fn(self, offset, length, fn):
+        """lazy extent: fn(start, n) -> bytes for the sub-range [start, start+n) of the extent"""
+        if length <= 0:
+            return
+        for o, d in self._ext:
+            if o < offset + length and offset < o + len(d):
+                raise ValueError(f"overlapping extents at {offset} (+{length}) and {o} (+{len(d)})")
+        bisect.insort(self._ext, (offset, _Lazy(length, fn)), key=lambda e: e[0])
+        self._size = max(self._size, offset + length)
 
     def set_size(self, size):
         self._size = size
@@ -73,7 +101,7 @@ class SparseFile(io.RawIOBase):
             raise MemoryError(f"read of {n} bytes requested")
         start, end = self._pos, self._pos + n
         out = bytearray(n)
-        i = bisect.bisect_right(self._ext, (start, b"\xff" * 0)) - 1
+        i = bisect.bisect_left([e[0] for e in self._ext], start) - 1
         i = max(i, 0)
         while i < len(self._ext):
             o, d = self._ext[i]
